@@ -5,19 +5,28 @@ PROP = "C03"
 
 TRUSTED = [
     "Coq 8.16.1 kernel (coqc), vm_compute for case evaluation; no native_compute",
-    "hand-written model props/C03/coq/Model.v of Chunks.Pack/unpack (on varint values), getLIDsBlockGenerator, "
+    "hand-written model props/C03/coq/Model.v of Chunks.Pack/unpack (on varint values; on BYTES in ModelBytes.v), getLIDsBlockGenerator, "
     "lids.Table, IteratorAsc/IteratorDesc, sort.Search, the registry ext words, getTokensBlocksGenerator, "
     "getIDsBlocksGenerator, writeDocsInOrder/docBlocksWriter/DocPos/extractDocs (sorted-docs rewrite), registry "
     "write + Loader.Load section walk, writeTokensBlocks table entries / physical blocks + GetEntryByTID / GetValByTID (tied to /repo by the correspondence run, not verified code; the registry walk "
     "only end to end through the reloaded form)",
+    "hand-written byte-level model props/C03/coq/ModelBytes.v of encoding/binary varints + little-endian words, packer.BytesPacker / "
+    "BytesUnpacker, Chunks.Pack/unpack on bytes, DiskIDsBlock.pack{MIDs,RIDs,Pos}, DiskPositionsBlock.pack + the body of Loader.loadIDs, "
+    "unpackRawIDsVarint / unpackRawIDsNoVarint / unpackRIDs, DiskTokensBlock.pack + Block.unpack + GetValByTID, DiskTokenTableBlock.pack + "
+    "TableLoader.load, IndexBlockHeader layout + registry + GetBlockHeader (tied to /repo by the byte-level correspondence classes)",
     "Go harness harness/cmd/hC03 (generators, canonical forms of answers, brute-force oracle of the end-to-end part)",
-    "outside the model: zstd/lz4, varint BYTE encoding, file I/O, caches (identity on their loader: C18), search "
+    "outside the model: zstd/lz4 (the bytes BEFORE compression are modelled; real index files exercise compression as an oracle), "
+    "DiskInfoBlock (opaque JSON bytes), file I/O, caches (identity on their loader: C18), search "
     "evaluation (C02), pattern matching (C13): covered end-to-end by comparing the three real forms only",
 ]
 ASSUME = [
     "posting lists are non-empty, strictly increasing, every LID < 2^32-1 (the end marker); block capacity > 0",
     "TIDs / block counts stay below 2^32 (registry ext word packs two uint32)",
     "stored IDs are not the zero ID (the sealer's 'no previous ID'); compressed blocks have non-zero length",
+    "byte level: token / string lengths below 2^32-1 and a physical token block below 4 GiB (uint32 length words and offsets); values "
+    "are uint64 / int64 / uint32 as in the code; the BinaryDataV0 RID format (no encoder left in the tree) is packMIDs' delta varints; "
+    "malformed blocks may panic in the real decoders (unpackRawIDsVarint by design, Uint32/Uint64 on short tails, loadIDs on an "
+    "overflowing varint, Block.unpack on 1..3 stray bytes): modelled and compared as outcome classes, not a C03 violation",
     "end-to-end form equality of whole answers (search evaluation, hist/agg, token dictionary, caches) and stability "
     "of a preloaded fraction under later seals/reloads are tested, not proved (PARTIAL)",
 ]
@@ -31,7 +40,14 @@ RULE = ("unit level with SMALL block capacities (1..8) so that every run has tok
         "small files with block sizes 1..200 (several blocks, nested IDs). Chains of 3..5 seals in one manager: every preloaded "
         "fraction re-asked after each later seal and after a reload. Token table: real writeTokensBlocks + TableLoader + BlockLoader on "
         "dictionaries with several physical blocks, EVERY TID looked up through GetEntryByTID/GetValByTID; end to end: count and sum "
-        "aggregations grouped by the multi-block dictionary fields over all documents")
+        "aggregations grouped by the multi-block dictionary fields over all documents. Byte level: real PutVarint/GetVarint, "
+        "PutUint32/64, GetUint32/GetBinary, Chunks.Pack/unpack, pack{MIDs,RIDs,Pos} + UnpackCache, a real index file written by "
+        "writePositionsBlock/writeIDsBlocks and read by loadIDs + load{MID,RID,Params}Block, DiskTokensBlock.pack + Block.unpack + "
+        "GetValByTID at every index and one beyond, DiskTokenTableBlock.pack + TableLoader.load, header setters/accessors and a "
+        "BlocksWriter registry read through GetBlockHeader: values 0, 2^7-1, 2^7, 2^14, 2^32-1, 2^63, 2^64-1 and every bit width, "
+        "decreasing / wrapping ID sequences, empty and single-element blocks; per decoder a malformed stream (truncated, bit flip, "
+        "stray tail, continuation run, random) compared as value / error / panic. non-trivial there = multi-byte varint, >= 2 "
+        "chunks / IDs / groups / fields / registry entries, or a decoder outcome other than a value")
 
 
 def harness_args(tier, seed, outdir):
